@@ -2,7 +2,7 @@
 From Coq Require Import NArith List.
 From DV Require Import Base.Outcome Base.Bytes Base.Names Base.PName C02.Gen C02.Model
   C02.ProofsBasic C02.ProofsClone C02.ProofsRun C02.ProofsName C02.ProofsComp C02.ProofsStatic C02.ProofsHash C02.ProofsTop
-  C02.ProofsLayout C02.ProofsRead C02.ProofsWrite C02.ProofsBuild C02.ProofsTotal C02.ProofsX C02.SchemaModel C02.ProofsSchema C02.ProofsGrow C02.ProofsReuse C02.ProofsOpt C02.ProofsCount C02.ProofsRaw.
+  C02.ProofsLayout C02.ProofsRead C02.ProofsWrite C02.ProofsBuild C02.ProofsTotal C02.ProofsX C02.SchemaModel C02.ProofsSchema C02.ProofsGrow C02.ProofsReuse C02.ProofsOpt C02.ProofsCount C02.ProofsRaw C02.ProofsWide.
 From DV Require C05.Schema C05.ProofsB C05.Model C05.OptModel.
 Import ListNotations.
 Local Open Scope N_scope.
@@ -394,6 +394,83 @@ Theorem C02_raw_acn_reachable : forall c ops s0 s a ws H tagf slots order_of n,
   end.
 Proof. exact raw_acn_reachable. Qed.
 Print Assumptions C02_raw_acn_reachable.
+
+(* Round 5 widening.  The state theorems without the "no panic" premise: for
+   well-formed operations with record data of at most 65535 octets no panic
+   is reachable (C02_build_parse_total), so in every state such a sequence
+   reaches the invariants hold, a failed push changes nothing and an accepted
+   push ends below the push limit. *)
+Theorem C02_reachable_tables_counts_shim_total : forall c ops s0 s a ws,
+  init c = Some s0 -> Forall wf_op_sized ops -> run_acc c s0 acc0 ops = (s, a, ws) ->
+  TBound (b_w s) /\ CountInv s a /\
+  (t_stream c = true ->
+     stream_of s = be16 (mlen (msg_of s)) ++ msg_of s /\ mlen (msg_of s) <= 65535).
+Proof. exact reachable_inv_total. Qed.
+Print Assumptions C02_reachable_tables_counts_shim_total.
+
+Theorem C02_failed_push_unchanged_total : forall c ops s0 s a ws o s' e,
+  init c = Some s0 -> Forall wf_op_sized ops -> run_acc c s0 acc0 ops = (s, a, ws) ->
+  step c s o = (s', RErr e) -> s' = s.
+Proof. exact failed_push_unchanged_total. Qed.
+Print Assumptions C02_failed_push_unchanged_total.
+
+Theorem C02_push_ok_below_limit_total : forall c ops s0 s a ws o s' l,
+  init c = Some s0 -> Forall wf_op_sized ops -> run_acc c s0 acc0 ops = (s, a, ws) ->
+  step c s o = (s', ROk) -> b_limit s = Some l -> mlen (w_buf (b_w s')) < l.
+Proof. exact push_ok_below_limit_total. Qed.
+Print Assumptions C02_push_ok_below_limit_total.
+
+(* The same three in states reached through any mix of primitive and
+   composite operations (conversions, builder(), start_answer / start_error /
+   request_axfr): with a stream target the two length octets equal the
+   message length there too. *)
+Theorem C02_composite_tables_counts_shim : forall c xs s0 s a ws lost,
+  init c = Some s0 -> Forall wf_xop xs -> xrun c s0 acc0 xs = (s, a, ws, lost) ->
+  TBound (b_w s) /\ CountInv s a /\
+  (t_stream c = true ->
+     stream_of s = be16 (mlen (msg_of s)) ++ msg_of s /\ mlen (msg_of s) <= 65535).
+Proof. exact xreachable_inv. Qed.
+Print Assumptions C02_composite_tables_counts_shim.
+
+Theorem C02_composite_failed_push_unchanged : forall c xs s0 s a ws lost o s' e,
+  init c = Some s0 -> Forall wf_xop xs -> xrun c s0 acc0 xs = (s, a, ws, lost) ->
+  step c s o = (s', RErr e) -> s' = s.
+Proof. exact xfailed_push_unchanged. Qed.
+Print Assumptions C02_composite_failed_push_unchanged.
+
+Theorem C02_composite_push_ok_below_limit : forall c xs s0 s a ws lost o s' l,
+  init c = Some s0 -> Forall wf_xop xs -> xrun c s0 acc0 xs = (s, a, ws, lost) ->
+  step c s o = (s', ROk) -> b_limit s = Some l -> mlen (w_buf (b_w s')) < l.
+Proof. exact xpush_ok_below_limit. Qed.
+Print Assumptions C02_composite_push_ok_below_limit.
+
+(* push = append: an accepted push leaves every octet written so far where it
+   is and only appends (the counters are kept beside the buffer and overlaid
+   by msg_of). *)
+Theorem C02_push_ok_appends : forall c ops s0 s a ws o s',
+  init c = Some s0 -> Forall wf_op_sized ops -> run_acc c s0 acc0 ops = (s, a, ws) ->
+  step c s o = (s', ROk) -> exists sfx, w_buf (b_w s') = w_buf (b_w s) ++ sfx.
+Proof. exact push_ok_appends. Qed.
+Print Assumptions C02_push_ok_appends.
+
+(* Header counts in the octets: octets 4..11 of the message (QDCOUNT, ANCOUNT,
+   NSCOUNT, ARCOUNT, big endian) are the numbers of accepted pushes of the
+   four sections, for primitive and for composite operation sequences. *)
+Theorem C02_count_octets_are_accepted_pushes : forall c ops s0 s a ws,
+  init c = Some s0 -> Forall wf_op_sized ops -> run_acc c s0 acc0 ops = (s, a, ws) ->
+  firstn 8 (skipn 4 (msg_of s)) =
+  be16 (N.of_nat (length (a_q a))) ++ be16 (N.of_nat (length (a_an a))) ++
+  be16 (N.of_nat (length (a_ns a))) ++ be16 (N.of_nat (length (a_ar a))).
+Proof. exact msg_counts_are_accepted. Qed.
+Print Assumptions C02_count_octets_are_accepted_pushes.
+
+Theorem C02_composite_count_octets_are_accepted_pushes : forall c xs s0 s a ws lost,
+  init c = Some s0 -> Forall wf_xop xs -> xrun c s0 acc0 xs = (s, a, ws, lost) ->
+  firstn 8 (skipn 4 (msg_of s)) =
+  be16 (N.of_nat (length (a_q a))) ++ be16 (N.of_nat (length (a_an a))) ++
+  be16 (N.of_nat (length (a_ns a))) ++ be16 (N.of_nat (length (a_ar a))).
+Proof. exact xmsg_counts_are_accepted. Qed.
+Print Assumptions C02_composite_count_octets_are_accepted_pushes.
 
 (* non-vacuity: a reachable three-entry table in eight buckets with concrete
    hasher and tags meets all premises, and a.B is found through the buckets *)
